@@ -41,3 +41,52 @@ def __getattr__(name):
 
 def calls():
     return [e[1] for e in LOG if e[0] == 'call']
+
+
+# ---- functions with generated signatures (C13): name sig_<posonly>_<poskw>_<ndefaults>_<kwonly>_<varargs>_<varkw>[_<tag>]
+
+def sig_params(name):
+    parts = name.split('_')
+    po, pk, nd, ko, va, vk = (int(x) for x in parts[1:7])
+    return po, pk, nd, ko, bool(va), bool(vk)
+
+
+def _make_sig(name):
+    po, pk, nd, ko, va, vk = sig_params(name)
+    pos = [f'a{i}' for i in range(po)] + [f'b{i}' for i in range(pk)]
+    nd = min(nd, len(pos))
+    params = []
+    for i, p in enumerate(pos):
+        d = f'={100 + i}' if i >= len(pos) - nd else ''
+        params.append(p + d)
+        if po and i == po - 1:
+            params.append('/')
+    if va:
+        params.append('*args')
+    elif ko:
+        params.append('*')
+    for i in range(ko):
+        params.append(f'k{i}={200 + i}' if i % 2 else f'k{i}')
+    if vk:
+        params.append('**kw')
+    names = pos + [f'k{i}' for i in range(ko)]
+    entries = [f'{n!r}: {n}' for n in names] + (["'args': list(args)"] if va else []) + (["'kw': dict(kw)"] if vk else [])
+    body = '{' + ', '.join(entries) + '}'
+    src = f'def {name}({", ".join(params)}):\n    LOG.append(("sig", {name!r}))\n    return {body}\n'
+    ns = {'LOG': LOG}
+    exec(src, ns)
+    f = ns[name]
+    f.__module__ = 'vfrec'
+    return f
+
+
+_old_getattr = __getattr__
+
+
+def __getattr__(name):        # noqa: F811
+    if name.startswith('sig_'):
+        f = _cache.get(name)
+        if f is None:
+            f = _cache[name] = _make_sig(name)
+        return f
+    return _old_getattr(name)
